@@ -14,10 +14,12 @@ CHECKS={
  "C09":("model_checking","T","BFS over every (slots,duration,grace) configuration of a small grid including 0 and 1, registrations/renewals of two users, single and multi-block polls, reorgs across expiry and purge heights; oracle: usability exactly below expiry, purge exactly at expiry+grace, renewals add one duration","5/C09"),
  "C03":("fault_enumeration","T+crash","for every history of a BFS over the tower alphabet (register, add plain/2-slot/replace/triggered, blocks, split polls, 1-block reorgs; seeds S0,S1,S4; plus a 100-confirmation completion history) and every step of it: the tower is killed right before each durable effect (every sqlite write/commit and every node RPC are crash points) and while idle, chain events that follow happen while it is down, it is restarted on the same file, the client gives up or re-sends, the rest is applied; differential oracle against the uninterrupted runs (took / lost / re-sent), ground truth for confirmed trackers, what the restarted tower tells (memory) included; polls are also combined with a failed block download","5/C03"),
  "C19":("model_checking","X","BFS over connect/disconnect sequences on the real TxIndex (both key types) for N in {1,2,3} with a 3-transaction universe (same key re-appearing in replacement blocks), every key/block ever seen looked up after every operation against a VecDeque reference; deterministic reorg families at the production sizes N=6 and N=100","5/C19"),
+ "C10":("model_checking","S","stateless model checking of the real tower under a controlled scheduler: for each of 16 two-operation scenarios (thorough: plus three-operation ones) from prepared states, every schedule with at most 3 (quick) / 4 (thorough) pre-emptions at lock/condvar/atomic granularity is executed; oracle: the observable outcome (replies, balances, held appointments and versions, trackers, submissions to the node, memory = tables, receipt start block = stored) equals that of some sequential order of the same operations","5/C10"),
+ "C11":("model_checking","S+T","the C10 schedules with deadlock detection (no enabled thread while one is unfinished, reported with held/wanted locks), per-thread panic capture and a liveness probe after every execution (one more request and one more block must be served; poisoned mutexes fail it); plus BFS over tower histories (C01 alphabets, resubmission of an appointment in every lifecycle state, multi-block catch-up) with panic and restart-failure detectors","5/C11"),
  "C17":("exploration","H","finite grid fully enumerated: transaction shapes x ids (incl. ids sharing 31 bytes), round trip, every other id, every single-bit flip, truncations/extensions; signatures: recovery, cross-key, every 1-byte message change, every single-character substitution and truncation","6/C17"),
  "C20":("exploration","H","finite grid fully enumerated through the real from_file/StructOpt/patch_with_options/verify: the interacting group (network x port x user x password x cookie in {absent,file,cli,both} x 7 network-name pairs) exhaustively, every other option with up to 2 (quick) / 3 (thorough) deviations from four uniform backgrounds; full Config equality oracle","6/C20"),
 }
-ENGINE_NOTE={"T+crash":"Trusted: a kill between two durable effects equals a kill right before the later one; sqlite statement/transaction atomicity (no torn pages); the simulated bitcoind; the harness mirror of main.rs's bootstrap. Known findings (recorded, not repaired) are listed in known_findings.json and print KNOWN-FINDING lines.","X":"Trusted: the VecDeque reference model; assumption that a txid never occurs in two live blocks.","H":"Trusted: the oracle written from the statement; the grid is finite and listed in the evidence (rule)."}
+ENGINE_NOTE={"S":"Trusted: the scheduler (self-checked: the same choice list replayed twice must give identical schedules and outcomes, otherwise exit 2); sequential consistency for the two atomic heights; no unsynchronised shared state in the tower crates (no unsafe, no statics); schedules inside tokio/tonic are not covered (handlers are driven directly).","S+T":"As C10 for the schedule half; as C01 for the history half.","T+crash":"Trusted: a kill between two durable effects equals a kill right before the later one; sqlite statement/transaction atomicity (no torn pages); the simulated bitcoind; the harness mirror of main.rs's bootstrap. Known findings (recorded, not repaired) are listed in known_findings.json and print KNOWN-FINDING lines.","X":"Trusted: the VecDeque reference model; assumption that a txid never occurs in two live blocks.","H":"Trusted: the oracle written from the statement; the grid is finite and listed in the evidence (rule)."}
 checks=[]
 for pid,(level,engine,text,ref) in CHECKS.items():
     checks.append({
@@ -29,7 +31,7 @@ for pid,(level,engine,text,ref) in CHECKS.items():
       "engine":engine,
       "level_claimed":{"category":level,"text":text,"design_ref":"DESIGN.md section "+ref},
       "level_note":ENGINE_NOTE.get(engine,T_NOTE),
-      "technique":"exhaustive crash-point enumeration over BFS-generated histories of the real tower (every durable write and node RPC, before/idle), restart + differential oracle" if engine=="T+crash" else "explicit-state model checking of the implementation (BFS by re-execution over a bounded event alphabet, canonical-state deduplication, reference-model oracle)" if level=="model_checking" else "exhaustive enumeration of a finite input grid against the real code (bounded exhaustive exploration, no sampling)",
+      "technique":"stateless model checking under a controlled scheduler (exhaustive schedules up to a pre-emption bound, re-execution of the real code)" if engine.startswith("S") else "exhaustive crash-point enumeration over BFS-generated histories of the real tower (every durable write and node RPC, before/idle), restart + differential oracle" if engine=="T+crash" else "explicit-state model checking of the implementation (BFS by re-execution over a bounded event alphabet, canonical-state deduplication, reference-model oracle)" if level=="model_checking" else "exhaustive enumeration of a finite input grid against the real code (bounded exhaustive exploration, no sampling)",
     })
 claimed=set(CHECKS)
 commits=subprocess.run("git -C /repo log --format=%h --grep='^verif hooks'",shell=True,capture_output=True,text=True).stdout.split()
@@ -40,6 +42,7 @@ m={"version":1,
           "baseline_off_cmd":"cd /repo && cargo test --workspace --no-fail-fast --offline",
           "source_commits":commits,"add_only":True},
  "engines":[{"name":"T","path":"/verif/harness/src/{world,spec,tmodel,checks_t}.rs","serves_properties":sorted(p for p in claimed if CHECKS[p][1]=="T"),"kind_free_text":"explicit-state BFS by re-execution of the real tower over a simulated bitcoind"},
+  {"name":"S","path":"/verif/harness/src/{sched,checks_s}.rs","serves_properties":["C10","C11"],"kind_free_text":"controlled scheduler over hook H2 (instrumented Mutex/Condvar/AtomicU32), pre-emption bounded DFS by re-execution"},
   {"name":"T+crash","path":"/verif/harness/src/checks_crash.rs","serves_properties":["C03"],"kind_free_text":"crash-point enumeration (hook H1) over engine T histories"},
   {"name":"X","path":"/verif/harness/src/checks_pure.rs","serves_properties":["C19"],"kind_free_text":"explicit-state BFS over the real TxIndex against a reference queue"},
   {"name":"H","path":"/verif/harness/src/checks_pure.rs","serves_properties":sorted(p for p in claimed if CHECKS[p][1]=="H"),"kind_free_text":"exhaustive finite input grids over real code"}],
